@@ -120,12 +120,12 @@ Proof.
 Qed.
 
 Lemma ar_validate_perm : forall inv inv' a b,
-  Permutation inv inv' -> ar_res_perm a b -> ar_res_perm (ar_validate inv a) (ar_validate inv' b).
+  Permutation (ar_inv_names inv) (ar_inv_names inv') -> ar_res_perm a b -> ar_res_perm (ar_validate inv a) (ar_validate inv' b).
 Proof.
   intros inv inv' a b Pi R. destruct a, b; simpl in *; auto; try contradiction.
   rewrite (ar_forallb_perm ar_obj_ok l l0 R).
   rewrite (ar_nodupb_perm (map ar_key l ++ ar_inv_names inv) (map ar_key l0 ++ ar_inv_names inv')).
-  2:{ apply Permutation_app. apply Permutation_map; auto. apply ar_inv_names_perm; auto. }
+  2:{ apply Permutation_app. apply Permutation_map; auto. auto. }
   destruct (forallb ar_obj_ok l0 && ar_nodupb (map ar_key l0 ++ ar_inv_names inv')); simpl; auto.
 Qed.
 
@@ -142,7 +142,7 @@ Proof.
   destruct (ar_run at_ (ar_add_services inv s1) (filter (fun r => negb (ar_is_svc_rule r)) rules)) as [o1|],
            (ar_run at_ (ar_add_services inv' s2) (filter (fun r => negb (ar_is_svc_rule r)) rules')) as [o2|];
     simpl in R2; try contradiction; [|exact Logic.I].
-  apply ar_validate_perm; auto. simpl. apply Permutation_app; auto.
+  apply ar_validate_perm; auto using ar_inv_names_perm. simpl. apply Permutation_app; auto.
 Qed.
 
 (* services of one host in another order *)
@@ -155,4 +155,66 @@ Proof.
   - rewrite !flat_map_app. simpl. apply Permutation_app_head. apply Permutation_app_tail.
     apply Permutation_map. auto.
   - rewrite !map_app. simpl. apply Permutation_refl.
+Qed.
+
+(* ------------------------------------------------------------------ services of any hosts in another order,
+   through the whole two-phase load *)
+Definition ar_host_sperm (h h' : ar_host) : Prop :=
+  ar_h_name h = ar_h_name h' /\ ar_h_fields h = ar_h_fields h' /\ Permutation (ar_h_svcs h) (ar_h_svcs h').
+Definition ar_inv_sperm (inv inv' : list ar_host) : Prop := Forall2 ar_host_sperm inv inv'.
+
+Lemma ar_strip_sperm : forall h h', ar_host_sperm h h' -> ar_strip h = ar_strip h'.
+Proof. intros h h' [N [F _]]. unfold ar_strip. rewrite N, F. reflexivity. Qed.
+
+Lemma ar_sperm_targets : forall inv inv', ar_inv_sperm inv inv' -> ar_targets_equiv inv inv'.
+Proof.
+  intros inv inv' S b. induction S; destruct b; simpl in *; auto.
+  - apply Permutation_app; auto. rewrite (ar_strip_sperm _ _ H). apply Permutation_map. apply H.
+  - rewrite (ar_strip_sperm _ _ H). apply perm_skip. auto.
+Qed.
+
+Lemma ar_sperm_add_services : forall inv inv' s1 s2,
+  ar_inv_sperm inv inv' -> Permutation s1 s2 -> ar_inv_sperm (ar_add_services inv s1) (ar_add_services inv' s2).
+Proof.
+  intros inv inv' s1 s2 S P. induction S; simpl; constructor; auto.
+  destruct H as [N [F Ps]]. unfold ar_host_sperm. simpl. repeat split; auto.
+  apply Permutation_app; auto. apply Permutation_map. rewrite N. apply ar_filter_perm. auto.
+Qed.
+
+Lemma ar_sperm_inv_names : forall inv inv', ar_inv_sperm inv inv' -> Permutation (ar_inv_names inv) (ar_inv_names inv').
+Proof.
+  intros inv inv' S. unfold ar_inv_names. apply Permutation_app.
+  - induction S; simpl; auto. destruct H as [N _]. rewrite N. apply perm_skip. auto.
+  - induction S; simpl; auto. apply Permutation_app; auto.
+    destruct H as [N [_ Ps]]. rewrite N. apply Permutation_map. auto.
+Qed.
+
+Lemma ar_load_service_order_independent : forall at_ inv inv' rules,
+  ar_inv_sperm inv inv' -> ar_res_perm (ar_load at_ inv rules) (ar_load at_ inv' rules).
+Proof.
+  intros at_ inv inv' rules S. unfold ar_load.
+  pose proof (ar_run_perm at_ inv inv' _ _ (Permutation_refl (filter ar_is_svc_rule rules)) (ar_sperm_targets _ _ S)) as R1.
+  destruct (ar_run at_ inv (filter ar_is_svc_rule rules)) as [s1|], (ar_run at_ inv' (filter ar_is_svc_rule rules)) as [s2|];
+    simpl in R1; try contradiction; [|exact Logic.I].
+  pose proof (ar_run_perm at_ _ _ _ _ (Permutation_refl (filter (fun r => negb (ar_is_svc_rule r)) rules))
+                (ar_sperm_targets _ _ (ar_sperm_add_services inv inv' s1 s2 S R1))) as R2.
+  destruct (ar_run at_ (ar_add_services inv s1) (filter (fun r => negb (ar_is_svc_rule r)) rules)) as [o1|],
+           (ar_run at_ (ar_add_services inv' s2) (filter (fun r => negb (ar_is_svc_rule r)) rules)) as [o2|];
+    simpl in R2; try contradiction; [|exact Logic.I].
+  apply ar_validate_perm; auto using ar_sperm_inv_names. simpl. apply Permutation_app; auto.
+Qed.
+
+Lemma ar_res_perm_trans : forall a b c, ar_res_perm a b -> ar_res_perm b c -> ar_res_perm a c.
+Proof.
+  intros [a|] [b|] [c|]; simpl; auto; try contradiction. apply Permutation_trans.
+Qed.
+
+(* rules permuted, hosts permuted, and the services of every host permuted *)
+Theorem ar_load_fully_order_independent : forall at_ inv mid inv' rules rules',
+  Permutation rules rules' -> Permutation inv mid -> ar_inv_sperm mid inv' ->
+  ar_res_perm (ar_load at_ inv rules) (ar_load at_ inv' rules').
+Proof.
+  intros. eapply ar_res_perm_trans.
+  - apply ar_load_order_independent; eauto.
+  - apply ar_load_service_order_independent; auto.
 Qed.
